@@ -14,6 +14,7 @@ Pure `ast`; nothing from pyunicorn is imported or executed.
 from __future__ import annotations
 
 import ast
+import copy
 import os
 import re
 from dataclasses import dataclass, field
@@ -499,6 +500,10 @@ class Program:
             return self._simplify_ok
         ok, n = True, 0
         for f in self.functions():
+            # stores through `self` of instance methods (a loader that attaches a
+            # graph to a freshly built object is not one of them)
+            if f.kind not in ("method", "setter", "getter"):
+                continue
             sn = f.params[0] if f.params else None
             for node in ast.walk(f.node):
                 for fld in ("body", "orelse", "finalbody"):
@@ -518,9 +523,19 @@ class Program:
                         if isinstance(st.value, ast.Constant) and st.value.value is None:
                             continue
                         n += 1
+                        # simplified right after the store, as the cell or as the
+                        # local that was stored; or the stored local was simplified
+                        # right before it was stored
+                        accepted = {f"{sn}.graph.simplify()"}
+                        if isinstance(st.value, ast.Name):
+                            accepted.add(f"{st.value.id}.simplify()")
                         nxt = body[i + 1] if i + 1 < len(body) else None
-                        if not (isinstance(nxt, ast.Expr)
-                                and ast.unparse(nxt.value) == f"{sn}.graph.simplify()"):
+                        prv = body[i - 1] if i > 0 else None
+                        good = (isinstance(nxt, ast.Expr)
+                                and ast.unparse(nxt.value) in accepted) or \
+                            (isinstance(prv, ast.Expr) and isinstance(st.value, ast.Name)
+                             and ast.unparse(prv.value) == f"{st.value.id}.simplify()")
+                        if not good:
                             ok = False
         self._simplify_ok = ok and n >= 1
         return self._simplify_ok
@@ -718,6 +733,29 @@ def const_of(node, env):
 _HASHABLE_CONST = (type(None), bool, str, int, float)
 
 
+class _GetattrToAttr(ast.NodeTransformer):
+    """getattr(self, "<k>"[, default]) -> self.<k> when <k> is the constant name
+    `only` (used to read `setattr(self, k, getattr(self, k) + 1)` as a bump; a
+    default makes it the accepted continue-the-counter idiom and is kept)."""
+    def __init__(self, builder, only):
+        self.b, self.only = builder, only
+
+    def visit_Call(self, n):
+        self.generic_visit(n)
+        if isinstance(n.func, ast.Name) and n.func.id == "getattr" and \
+                len(n.args) == 2 and self.b.is_self(n.args[0]) and \
+                const_of(n.args[1], self.b.env) == self.only:
+            return ast.copy_location(ast.Attribute(value=n.args[0], attr=self.only,
+                                                   ctx=ast.Load()), n)
+        if isinstance(n.func, ast.Name) and n.func.id == "getattr" and \
+                len(n.args) == 3 and self.b.is_self(n.args[0]) and \
+                isinstance(const_of(n.args[1], self.b.env), str):
+            # normalise the name argument to a literal (K2 reads it syntactically)
+            n.args[1] = ast.copy_location(ast.Constant(
+                value=const_of(n.args[1], self.b.env)), n.args[1])
+        return n
+
+
 class _Builder:
     def __init__(self, prog: Program, func: FuncInfo, cls, env, reinit):
         self.p = prog
@@ -731,6 +769,28 @@ class _Builder:
         self.aliases: dict[str, str] = {}     # local name -> cell
         self.objalias: dict[str, str] = {}    # local name -> cell holding object
         self.classvars: dict[str, ClassInfo] = {}
+
+    def const_str_seq(self, e):
+        """[str, ...] when e is a tuple/list literal of string constants or a
+        class-level attribute (self.X / Class.X) bound to one."""
+        if isinstance(e, (ast.Tuple, ast.List)) and e.elts and all(
+                isinstance(x, ast.Constant) and isinstance(x.value, str) for x in e.elts):
+            return [x.value for x in e.elts]
+        if isinstance(e, ast.Attribute) and isinstance(e.value, ast.Name) and \
+                self.cls is not None and (self.is_self(e.value) or
+                                          e.value.id in self.p.classes):
+            classes = self.cls.mro if self.is_self(e.value) else \
+                self.p.classes[e.value.id].mro
+            for c in classes:
+                for st in c.node.body:
+                    if isinstance(st, ast.Assign) and len(st.targets) == 1 and \
+                            isinstance(st.targets[0], ast.Name) and \
+                            st.targets[0].id == e.attr:
+                        return self.const_str_seq(st.value)
+                    if isinstance(st, ast.AnnAssign) and isinstance(st.target, ast.Name) \
+                            and st.target.id == e.attr and st.value is not None:
+                        return self.const_str_seq(st.value)
+        return None
 
     # -- helpers
     def ev(self, kind, cell, node, **info):
@@ -960,6 +1020,21 @@ class _Builder:
                     out.append(self.ev("ensure", cell, st))
             return seq(out)
         if isinstance(st, (ast.For, ast.AsyncFor)):
+            # a loop over a literal / class-level tuple of strings is unrolled
+            # (attribute names driven by a table: setattr(self, name, ...))
+            vals = self.const_str_seq(st.iter)
+            if vals is not None and isinstance(st.target, ast.Name) and not st.orelse \
+                    and len(vals) <= 16:
+                outs = [self.expr(st.iter)]
+                saved = self.env.get(st.target.id, UNKNOWN)
+                for v in vals:
+                    self.env[st.target.id] = v
+                    outs.append(self.block(st.body))
+                if saved is UNKNOWN:
+                    self.env.pop(st.target.id, None)
+                else:
+                    self.env[st.target.id] = saved
+                return seq(outs)
             it = self.expr(st.iter)
             self.bind_loop_target(st.target, st.iter)
             self.forget(assigned_names(st.body) | assigned_names([st.target]))
@@ -1360,6 +1435,23 @@ class _Builder:
         if isinstance(fn, ast.Call) and isinstance(fn.func, ast.Name) and \
                 fn.func.id == "getattr":
             return self.getattr_call(fn, e)
+        if isinstance(fn, ast.Name) and fn.id == "setattr" and len(e.args) == 3 and \
+                self.is_self(e.args[0]):
+            # setattr(self, "<k>", v) with a constant (or constant-specialised) name
+            # is the assignment self.<k> = v
+            nm = const_of(e.args[1], self.env)
+            if isinstance(nm, str):
+                target = ast.copy_location(ast.Attribute(
+                    value=e.args[0], attr=nm, ctx=ast.Store()), e)
+                v = e.args[2]
+                # getattr(self, "<k>"[, d]) inside the value reads the same attribute
+                v2 = _GetattrToAttr(self, nm).visit(copy.deepcopy(v))
+                ast.fix_missing_locations(v2)
+                pseudo = ast.copy_location(ast.Assign(targets=[target], value=v2), e)
+                return seq([self.expr(v), self.store(target, v2, pseudo)])
+            # name not known in this (unspecialised) context: the specialised
+            # call sites carry the effect; here it is an opaque expression
+            return seq([self.expr(a) for a in e.args])
         if isinstance(fn, ast.Name) and fn.id in ("hasattr", "isinstance", "len",
                                                   "print", "str", "repr", "float",
                                                   "int", "range", "list", "tuple",
@@ -1530,6 +1622,10 @@ class _Builder:
             if isinstance(names, list):
                 return self.ev("read", self.cellname(names[0]), g,
                                getattr_default=len(g.args) > 2)
+            if self.f.name.startswith("_") and not self.f.name.startswith("__"):
+                # private helper analysed without its call-site constants: the
+                # specialised call sites carry the read; opaque here
+                return seq([self.expr(a) for a in g.args])
             raise AnalysisError(
                 f"{self.f.module.relpath}:{g.lineno} unresolved getattr on "
                 f"{ast.unparse(obj)}")
